@@ -401,7 +401,7 @@ def run_job(job):
         scen = [{"ks": [C.n + 5, 2 * C.n + 1], "warm": []}, {"ks": [C.n + 5, 2 * C.n + 1], "warm": [1]}, {"ks": [29, 45], "warm": [5, 0]}][job["idx"]]
         case = {"curve": cv, **scen}
         calls, warm, judge = _concur_setup(case)
-        ex = concur.explore_calls(acc, calls, ("bits/ecmath.py",), 1 if job["tier"] == "quick" else 2, judge, "concur", case, warmup=warm)
+        ex = concur.explore_calls(acc, calls, ("bits/ecmath.py",), 1 if job["tier"] == "quick" else 2, judge, "concur", case, warmup=warm, max_exec=6000 if job["tier"] == "quick" else 100_000)
         acc.ob("concurrent_calls", ex.executions)
         acc.sample({"concurrent_mul": scen, "executions": ex.executions})
         return acc.result()
